@@ -223,6 +223,9 @@ func emuMarshalAfter(cfgs []xsens.OutputConfiguration, md xsens.MeasurementData,
 		case <-done:
 			alive = false
 		}
+		// an encode under every configuration on the way (whatever the emulator derives from a configuration must not
+		// outlive it)
+		protect(func() { _, _ = e.MarshalMessage(md, t) })
 	}
 	p, err := e.MarshalMessage(md, t)
 	close(port.in)
@@ -244,6 +247,7 @@ func (c *ctx) emuDelivers() {
 				{kind: "lastid"},
 				{kind: "recv", frame: xsens.NewMessage(xsens.MessageIdentifierGotoConfig, nil)},
 				{kind: "lastid"},
+				{kind: "transmit", frame: xsens.NewMessage(xsens.MessageIdentifierMTData2, []byte{0x10, 0x20, 0x02, 0x00, 0x07})},
 				{kind: "recv", frame: xsens.NewMessage(xsens.MessageIdentifierGotoMeasurement, nil)},
 				{kind: "lastid"},
 			})
@@ -312,6 +316,8 @@ func (c *ctx) emuEvent(k int) eev {
 
 func init() {
 	props["C18"] = func(c *ctx) {
+		// commands of every boundary size in measurement mode, then a mode command and a transmit
+		c.emuDelivers()
 		// bounded-exhaustive histories over the seven event kinds, each followed by a mode probe
 		L := c.pick(4, 5)
 		var rec func(cur []int)
